@@ -316,19 +316,29 @@ Definition parse_step (rx : bool) (st : pstate) (p : proto) : pstate + exn :=
 (* the statements of a text are separated by whitespace: the S handler sets expected = max(1, expected) *)
 Definition after_S (st : pstate) : pstate := mkP (p_rules st) (p_ns st) (Nat.max 1 (p_expected st)).
 
-Fixpoint parse_loop (rx : bool) (st : pstate) (ps : list proto) : pstate + exn :=
-  match ps with
+(* what a text is made of at sheet level: statements, and the tokens the dispatch maps to a no-op production.
+   CDO / CDC ('<!--', '-->'): `lambda *ignored: None` -- the returned None becomes the new `expected`, which every
+   handler reads as `(expected or 0)`: the order state is RESET to 0.  glued: no whitespace follows the token (with
+   whitespace the S handler lifts the state to 1 again). *)
+Inductive titem := TStmt (p : proto) | TSep (glued : bool).
+
+Definition stmts (ps : list proto) : list titem := map TStmt ps.
+
+Fixpoint parse_loop (rx : bool) (st : pstate) (its : list titem) : pstate + exn :=
+  match its with
   | [] => inl st
-  | p :: r => match parse_step rx st p with
-              | inr e => inr e
-              | inl st' => parse_loop rx (after_S st') r
-              end
+  | TStmt p :: r => match parse_step rx st p with
+                    | inr e => inr e
+                    | inl st' => parse_loop rx (after_S st') r
+                    end
+  | TSep glued :: r =>
+    parse_loop rx (mkP (p_rules st) (p_ns st) (if glued then 0 else 1)) r
   end.
 
 (* a complete parse into a fresh rule list, followed by the switch to the namespaces view and _cleanNamespaces.
    inr (rules so far are dropped): the exception propagates, the caller restores the old list *)
-Definition parse_sheet (rx : bool) (env : dict) (ps : list proto) : (list rule * option exn) + exn :=
-  match parse_loop rx (mkP [] env 0) ps with
+Definition parse_sheet (rx : bool) (env : dict) (its : list titem) : (list rule * option exn) + exn :=
+  match parse_loop rx (mkP [] env 0) its with
   | inr e => inr e
   | inl st => inl (clean_namespaces (p_rules st))
   end.
@@ -356,7 +366,7 @@ Definition insert_any (rx : bool) (rs : list rule) (src : source) (index : optio
       let ps' := if with_cs then mkProto CHARSET_RULE 0 0 (match rs with r :: _ => renc r | [] => 0%N end) [] [] :: ps
                  else ps in
       let (count, pos) := if with_cs then (2, 1) else (1, 0) in
-      match parse_sheet rx (ns_view rs) ps' with
+      match parse_sheet rx (ns_view rs) (stmts ps') with
       | inr e => (rs, Exc e)
       | inl (_, Some e) => (rs, Exc e)
       | inl (tmp, None) =>
@@ -370,8 +380,8 @@ Definition insert_any (rx : bool) (rs : list rule) (src : source) (index : optio
   end.
 
 (* sheet.cssText = text (restores the old list when the parse raises) *)
-Definition set_text (rx : bool) (rs : list rule) (ps : list proto) : list rule * result :=
-  match parse_sheet rx [] ps with
+Definition set_text (rx : bool) (rs : list rule) (its : list titem) : list rule * result :=
+  match parse_sheet rx [] its with
   | inr e => (rs, Exc e)
   | inl (rs', None) => (rs', Ret None)
   | inl (rs', Some e) => (rs', Exc e)
@@ -465,7 +475,7 @@ Definition container_insert (rx : bool) (env : dict) (c : rule) (src : source) (
           | _ =>
             match src with
             | Obj r => inl (Some (rkind r))
-            | Text ps => match parse_sheet rx env ps with
+            | Text ps => match parse_sheet rx env (stmts ps) with
                          | inr e => inr (Exc e)
                          | inl (_, Some e) => inr (Exc e)
                          | inl (tmp, None) => match tmp with
@@ -517,7 +527,7 @@ Inductive op :=
 | NsSet (p u : N)
 | NsDel (p : N)
 | Enc (e : N)
-| SetText (ps : list proto)
+| SetText (its : list titem)
 | In (k : nat) (c : cop).   (* an operation on the @media/@page rule at position k *)
 
 Definition is_container (r : rule) : bool := is_kind MEDIA_RULE r || is_kind PAGE_RULE r.
